@@ -208,6 +208,43 @@ theorem no_prss_no_keys (m t : Nat) (tok : Nat → Nat → Bytes) (evs : List Hs
   simp only [Stores.get, initStores, ↓reduceIte]
   by_cases h : i < m <;> simp [h]
 
+/-! ### the threshold setter AFTER the set-up (repo fix b17a618) -/
+
+/-- Assigning `mpc.threshold = t'` replaces a party's key store by the keys it generates itself (`initStores`: the
+subsets of size m - t' whose lowest member it is) — the handshakes that distribute keys happen only while connections
+are set up.  Hence after such an assignment every OTHER member of a subset holds no key for it: the conclusion of C16
+fails until the next `start()`, and `prfs()` must refuse to run (it raises RuntimeError since the fix; before, all
+PRSS-based results were silently different per party). -/
+theorem setter_after_setup_drops_peer_keys (m t' : Nat) (tok : Nat → Nat → Bytes) (i : Nat) (s : Subset)
+    (hs : s ∈ subsets m t') (hi : i ∈ s) (hne : hd s ≠ i) :
+    ((initStores m t' false tok).get i).get? s = none := by
+  rw [inv_init m t' tok i s]
+  unfold held
+  rw [if_neg]
+  rintro ⟨_, _, h | h⟩
+  · exact hne h
+  · simp at h
+
+/-- … while the lowest member does hold a (fresh) key: the stores of the members of `s` disagree -/
+theorem setter_after_setup_owner_holds_key (m t' : Nat) (tok : Nat → Nat → Bytes) (s : Subset)
+    (hs : s ∈ subsets m t') (hmem : hd s ∈ s) :
+    ((initStores m t' false tok).get (hd s)).get? s = some (genKey m t' tok s) := by
+  rw [inv_init m t' tok (hd s) s]
+  unfold held
+  rw [if_pos ⟨hs, hmem, Or.inl rfl⟩]
+
+/-- the repaired `prfs()`: refuses while the keys are stale (set by the setter when peers are connected, cleared by
+`start()`), otherwise one PRF per held subset -/
+def prfsE (stale : Bool) (st : Store) : Except String (List Subset) :=
+  if stale then .error "RuntimeError" else .ok (prfSubsets st)
+
+theorem prfsE_stale (st : Store) : prfsE true st = .error "RuntimeError" := rfl
+
+theorem prfsE_fresh (m t : Nat) (hm : m ≤ 65536) (tok : Nat → Nat → Bytes)
+    (htok : ∀ p k, (tok p k).length = 16) (evs : List Hs) (hv : ValidSetup m evs) (i : Nat) (hi : i < m) :
+    ∃ subs, prfsE false ((finalStores m t tok evs).get i) = .ok subs ∧ ∀ s, s ∈ subs ↔ s ∈ subsets m t ∧ i ∈ s :=
+  ⟨_, rfl, fun s => prfs_subsets m t hm tok htok evs hv i hi s⟩
+
 /-! ### non-vacuity: a concrete 4-party run, threshold 1, handshakes out of order and chunked -/
 
 def tok0 (p k : Nat) : Bytes := List.replicate 16 (16 * p + k)
